@@ -216,11 +216,24 @@ def check_generated(ctx, case):
             H, S, Tr = i_(H), i_(S), i_(Tr)
             Cp = dict((i_(t), i_(v)) for t, v in Cp.items())
             rg = None if rg is None else (i_(rg[0]), i_(rg[1]))
-        if how == 'direct then update()':
+        if len(Cp) > 1 and rng.random() < 0.5:
+            # the table handed over in another than ascending order
+            ks = list(Cp)
+            rng.shuffle(ks)
+            Cp = dict((k, Cp[k]) for k in ks)
+            how += ', Cp supplied unsorted'
+        if how.startswith('direct then update()'):
             # the references arrive through a merge into a Cp-only object
             def build():
-                a = ThermochemGroup(None, None, Cp, Tr, rg)
+                # upper half of the table first, the lower half and the
+                # references arrive through merges
+                ks = sorted(Cp)
+                hi_ = dict((k, Cp[k]) for k in ks[len(ks) // 2:])
+                lo_ = dict((k, Cp[k]) for k in ks[:len(ks) // 2])
+                a = ThermochemGroup(None, None, hi_, Tr, rg)
                 a.update(ThermochemGroup(H, S, {}, Tr, rg))
+                if lo_:
+                    a.update(ThermochemGroup(None, None, lo_, Tr, rg))
                 return a
             o = observe(build)
         else:
